@@ -1,6 +1,10 @@
 package props
 
 import (
+	"fmt"
+	"go/token"
+	"go/types"
+	"strconv"
 	"strings"
 
 	"golang.org/x/tools/go/ssa"
@@ -13,10 +17,10 @@ func init() {
 		ID: "C12",
 		Explanation: "Structural necessary conditions of 'mounts, cubbyholes and namespaces are confined to their own storage and scope': " +
 			"(1) a backend's storage handle is its own view: writers of logical.Request.Storage and of RouteEntry.StorageView are tabled; the router attaches the route entry's view; every view handed to Router.Mount / installed by a remount comes from Core.mountEntryView applied to the entry as it is mounted (no field the view is derived from is rewritten between computing the view and installing it); mountEntryView returns only NamespaceView(me.Namespace).SubView(<table prefix> + me.UUID + '/') (or the fixed sys/token/audit forms) behind the namespace-consistency guard; Router.Mount inserts only a non-nested prefix with non-empty storage prefix, UUID and accessor; " +
-			"(2) prefix views cannot be escaped: every operation of logical.storageView and physical.View passes its key through the expand function and lies behind the relative-path sanity check; sub-views are built from the expanded prefix; " +
-			"(3) routing happens on the namespace-qualified path and the backend sees the path with the mount prefix removed; " +
+			"(2) prefix views cannot be escaped: every operation of logical.storageView and physical.View passes its key through the expand function and lies behind the relative-path sanity check, and each sanity check accepts a key only across IsRelativePath(key) / strings.Contains(key, '..') being false on the key parameter itself; sub-views are built from the expanded prefix; " +
+			"(3) routing happens on the namespace-qualified path and the backend sees the path with the mount prefix removed; every prefix lookup (LongestPrefix/WalkPrefix) in the mount tree made by a Router method that takes the request context is keyed by <namespace of that context>.Path as the leading operand of the key (the one pass-through helper whose key is its parameter is tabled and its API-path callers are held to the same rule); " +
 			"(4) cubbyhole requests carry the token's cubbyhole ID (or the double-salted legacy ID) as client token behind the token-entry / service-type / non-empty-ID guards, and every cubbyhole storage key starts with that client token; " +
-			"(5) the ACL is built in the token's namespace except on the three wrapping paths; (6) a sealed namespace's barrier refuses (C10.1) and NamespaceView selects the barrier by longest namespace-path prefix.",
+			"(5) the ACL is built in the token's namespace except on the three wrapping paths; (6) a sealed namespace's barrier refuses (C10.1) and NamespaceView selects the barrier by longest namespace-path prefix; NamespaceStoragePathPrefix returns the empty prefix only for a nil or root namespace and otherwise a prefix whose only non-constant ingredient is the namespace's UUID under barrier.NamespacePrefix.",
 		NotDecided: "which physical keys a given request touches (values); unmount histories; backends that keep their own references to storage beyond the request (plugin contract).",
 		Run:        runC12,
 	})
@@ -226,6 +230,7 @@ func runC12(c *eng.Ctx, thorough bool) {
 			}
 		}
 	}
+	c12RouteLookups(c)
 	if f := c.Fn("routing.(*Router).Mount"); f != nil {
 		c.Clause("R2", "C12.1")
 		ins := instrsOf(eng.Calls(f, `go-radix\.Tree\)\.Insert$`))
@@ -312,10 +317,21 @@ func runC12(c *eng.Ctx, thorough bool) {
 			}
 		}
 	}
-	if f := c.Fn("logical.(*storageView).SanityCheck"); f != nil {
+	// the sanity checks themselves: a key is accepted only across "the key (the parameter itself) has no
+	// relative segment": IsRelativePath(key) == false, or strings.Contains(key, "..") == false — a weaker
+	// predicate (prefix/suffix test, another operand) is not the guard
+	for _, fn := range []string{"logical.(*storageView).SanityCheck", "physical.(*View).sanityCheck"} {
+		f := c.Fn(fn)
+		if f == nil {
+			continue
+		}
 		c.Clause("R2", "C12.2")
 		succ := eng.SuccessReturns(f, 0)
-		c.Cut(f, "key accepted", succ, eng.G(f, `IsRelativePath\(\)$|strings\.Contains\(\)$`, false), nil)
+		if !c.Floor(f, "accepting (nil) returns", len(succ), 1) || len(f.Params) != 2 {
+			continue
+		}
+		k := reQuote(f.Params[1].Name())
+		c.Cut(f, "key accepted", succ, eng.GD(f, `^logical\.IsRelativePath\(`+k+`\)$|^strings\.Contains\(`+k+`, "\.\."\)$`, false), nil)
 	}
 	if f := c.Fn("logical.(*storageView).SubView"); f != nil {
 		c.Clause("R5", "C12.2")
@@ -404,6 +420,7 @@ func runC12(c *eng.Ctx, thorough bool) {
 		}
 		c.Floor(f, "NamespaceBarrierByLongestPrefix call", len(eng.Calls(f, `NamespaceBarrierByLongestPrefix$`)), 1)
 	}
+	c12NamespacePrefix(c)
 	if f := c.Fn("vault.NamespaceScopedView"); f != nil {
 		c.Clause("R5", "C12.6")
 		n := 0
@@ -417,5 +434,282 @@ func runC12(c *eng.Ctx, thorough bool) {
 			}
 		}
 		c.Floor(f, "barrier.NewView in NamespaceScopedView", n, 1)
+	}
+}
+
+// ---------- C12.3 every prefix lookup in the mount tree is namespace-qualified
+
+// c12LeftLeaves returns the leftmost operands of the string concatenation v
+// (through phis, conversions and, flow-sensitively, loads of locals).
+func c12LeftLeaves(v ssa.Value) []ssa.Value {
+	var out []ssa.Value
+	seen := map[ssa.Value]bool{}
+	var walk func(v ssa.Value)
+	walk = func(v ssa.Value) {
+		if v == nil || seen[v] {
+			return
+		}
+		seen[v] = true
+		switch x := v.(type) {
+		case *ssa.Phi:
+			for _, e := range x.Edges {
+				walk(e)
+			}
+			return
+		case *ssa.ChangeType:
+			walk(x.X)
+			return
+		case *ssa.BinOp:
+			if x.Op == token.ADD {
+				walk(x.X)
+				return
+			}
+		case *ssa.UnOp:
+			if a, ok := x.X.(*ssa.Alloc); ok && x.Op == token.MUL {
+				vals, _ := eng.ReachingStores(a, x)
+				if len(vals) > 0 {
+					for _, s := range vals {
+						if s == nil {
+							out = append(out, v)
+						} else {
+							walk(s)
+						}
+					}
+					return
+				}
+			}
+		}
+		out = append(out, v)
+	}
+	walk(v)
+	return out
+}
+
+// c12IsCtxNamespacePath: v is a load of namespace.Namespace.Path whose base is
+// read out of namespace.FromContext's result only.
+func c12IsCtxNamespacePath(c *eng.Ctx, v ssa.Value) bool {
+	ld, base := c14LoadOfField(v, "Path")
+	if ld == nil || structTypeName(base.Type()) != "namespace.Namespace" {
+		return false
+	}
+	roots := eng.Roots(base, nil)
+	if len(roots) == 0 {
+		return false
+	}
+	for _, r := range roots {
+		cl := c14ExtractOf(r, 0)
+		if cl == nil || eng.CalleeName(&cl.Call) != "namespace.FromContext" {
+			return false
+		}
+	}
+	return true
+}
+
+func c12RouteLookups(c *eng.Ctx) {
+	root := c.P.Field("routing.Router.root")
+	if root == nil {
+		c.Clause("R5", "C12.3")
+		c.Unresolved("routing.Router.root")
+		return
+	}
+	// pass-through helper: the key is the caller's; its API-path callers are checked below
+	passThrough := map[string]string{
+		"routing.(*Router).matchingRouteEntryByPath": "looks up the path it is given; callers qualify it",
+	}
+	onRoot := func(cl ssa.CallInstruction) bool {
+		a := cl.Common().Args
+		if len(a) < 2 {
+			return false
+		}
+		ld, ok := a[0].(*ssa.UnOp)
+		if !ok || ld.Op != token.MUL {
+			return false
+		}
+		fa, ok := ld.X.(*ssa.FieldAddr)
+		return ok && eng.FieldVar(fa) == root
+	}
+	check := func(f *ssa.Function, what string, at ssa.CallInstruction, key ssa.Value) {
+		var bad []string
+		leaves := c12LeftLeaves(key)
+		for _, l := range leaves {
+			if !c12IsCtxNamespacePath(c, l) {
+				bad = append(bad, eng.Expr(l))
+			}
+		}
+		site := what + " keyed by <context namespace>.Path + path"
+		if len(bad) > 0 || len(leaves) == 0 {
+			c.Violation(f, site, at.Pos(), "the key "+eng.ExprDeep(key)+" does not lead with the Path of the namespace taken from the request context (leading operand(s): "+strings.Join(bad, ", ")+"): a request made inside a namespace would be matched against another namespace's mounts", nil)
+		} else {
+			c.OK(f, site, at.Pos(), eng.ExprDeep(key))
+		}
+	}
+	c.Clause("R5", "C12.3")
+	n, nRoute := 0, 0
+	for _, f := range c.P.Funcs {
+		if !eng.InPkg(f, "routing") || !strings.HasPrefix(eng.FuncName(eng.TopFunc(f)), "routing.(*Router).") {
+			continue
+		}
+		top := eng.TopFunc(f)
+		hasCtx := false
+		for _, p := range top.Params {
+			if types.TypeString(p.Type(), nil) == "context.Context" {
+				hasCtx = true
+			}
+		}
+		if !hasCtx {
+			continue // Mount/Unmount/Remount/Get take full prefixes; Mount's own qualification is checked above
+		}
+		for _, cl := range eng.Calls(f, `go-radix\.Tree\)\.(LongestPrefix|WalkPrefix|WalkPath)$`) {
+			if !onRoot(cl) {
+				continue
+			}
+			n++
+			if eng.FuncName(top) == "routing.(*Router).routeCommon" {
+				nRoute++
+			}
+			if why, ok := passThrough[eng.FuncName(top)]; ok {
+				if _, isParam := cl.Common().Args[1].(*ssa.Parameter); isParam {
+					c.OK(f, "mount-tree lookup keyed by <context namespace>.Path + path", cl.Pos(), "tabled pass-through: "+why)
+					continue
+				}
+			}
+			check(f, "mount-tree lookup", cl, cl.Common().Args[1])
+		}
+	}
+	c.Floor(nil, "prefix lookups in the mount tree by context-taking Router methods", n, 10)
+	if f := c.P.Func("routing.(*Router).routeCommon"); f != nil {
+		c.Floor(f, "routing lookups", nRoute, 1)
+	}
+	// API-path callers of the pass-through helper
+	if h := c.P.Func("routing.(*Router).matchingRouteEntryByPath"); h != nil {
+		m, _ := c.P.StaticCallee("routing.(*Router).matchingRouteEntryByPath")
+		for _, s := range c.P.FindCalls(m, nil) {
+			a := s.Call.Common().Args
+			if len(a) != 4 || eng.Expr(a[3]) != "true" {
+				continue // storage-path lookups are keyed by storage prefixes, which embed the namespace UUID
+			}
+			if eng.FuncName(s.Fn) == "routing.(*Router).MatchingMountByAPIPath" {
+				// hands its bare path on; tolerated only while nothing calls it
+				mm, _ := c.P.StaticCallee("routing.(*Router).MatchingMountByAPIPath")
+				if callers := c.P.FindCalls(mm, nil); len(callers) > 0 {
+					c.Violation(s.Fn, "API-path lookup keyed by <context namespace>.Path + path", s.Call.Pos(), "MatchingMountByAPIPath looks its bare path up in the mount tree and now has callers ("+eng.FuncName(callers[0].Fn)+")", nil)
+				} else {
+					c.OK(s.Fn, "API-path lookup keyed by <context namespace>.Path + path", s.Call.Pos(), "unqualified, but the function has no caller in the program")
+				}
+				continue
+			}
+			check(s.Fn, "API-path lookup", s.Call, a[2])
+		}
+	}
+}
+
+// ---------- C12.6 a namespace's storage prefix is derived from its UUID
+
+// c12Ingredients collects the leaves a string is built from: through
+// concatenation, path.Join's variadic elements, conversions and phis.
+func c12Ingredients(v ssa.Value, out *[]ssa.Value, seen map[ssa.Value]bool) {
+	if v == nil || seen[v] {
+		return
+	}
+	seen[v] = true
+	switch x := v.(type) {
+	case *ssa.Phi:
+		for _, e := range x.Edges {
+			c12Ingredients(e, out, seen)
+		}
+		return
+	case *ssa.ChangeType:
+		c12Ingredients(x.X, out, seen)
+		return
+	case *ssa.BinOp:
+		if x.Op == token.ADD {
+			c12Ingredients(x.X, out, seen)
+			c12Ingredients(x.Y, out, seen)
+			return
+		}
+	case *ssa.Call:
+		if n := eng.CalleeName(&x.Call); n == "path.Join" && len(x.Call.Args) == 1 {
+			if sl, ok := x.Call.Args[0].(*ssa.Slice); ok {
+				if arr, ok := sl.X.(*ssa.Alloc); ok && arr.Referrers() != nil {
+					found := false
+					for _, r := range *arr.Referrers() {
+						ia, ok := r.(*ssa.IndexAddr)
+						if !ok || ia.Referrers() == nil {
+							continue
+						}
+						for _, rr := range *ia.Referrers() {
+							if st, ok := rr.(*ssa.Store); ok && st.Addr == ssa.Value(ia) {
+								found = true
+								c12Ingredients(st.Val, out, seen)
+							}
+						}
+					}
+					if found {
+						return
+					}
+				}
+			}
+		}
+	}
+	*out = append(*out, v)
+}
+
+func c12NamespacePrefix(c *eng.Ctx) {
+	f := c.Fn("vault.NamespaceStoragePathPrefix")
+	if f == nil {
+		return
+	}
+	nsPrefix, ok1 := c.P.ConstValue("barrier.NamespacePrefix")
+	rootID, ok2 := c.P.ConstValue("namespace.RootNamespaceID")
+	if !ok1 || !ok2 || len(f.Params) != 1 {
+		c.Clause("R5", "C12.6")
+		c.Unresolved("barrier.NamespacePrefix / namespace.RootNamespaceID / NamespaceStoragePathPrefix(ns)")
+		return
+	}
+	ns := f.Params[0]
+	var empty, derived []ssa.Instruction
+	for _, r := range eng.Returns(f) {
+		if k, ok := r.Results[0].(*ssa.Const); ok && eng.Expr(k) == `""` {
+			empty = append(empty, r)
+		} else {
+			derived = append(derived, r)
+		}
+	}
+	c.Clause("R2", "C12.6")
+	if len(empty) > 0 {
+		c.Cut(f, "empty storage prefix", empty, eng.Or(eng.G(f, `^`+reQuote(ns.Name())+` == nil$`, true), eng.G(f, `^`+reQuote(ns.Name())+`\.ID == `+reQuote(strconv.Quote(rootID))+`$`, true)), nil)
+	}
+	c.Clause("R5", "C12.6")
+	if !c.Floor(f, "returns of a derived prefix", len(derived), 1) {
+		return
+	}
+	for _, r := range derived {
+		ret := r.(*ssa.Return)
+		var ing []ssa.Value
+		c12Ingredients(ret.Results[0], &ing, map[ssa.Value]bool{})
+		hasUUID, hasPrefix := false, false
+		var bad []string
+		for _, v := range ing {
+			if k, ok := v.(*ssa.Const); ok {
+				if eng.Expr(k) == strconv.Quote(nsPrefix) {
+					hasPrefix = true
+				}
+				continue
+			}
+			if ld, base := c14LoadOfField(v, "UUID"); ld != nil && base == ssa.Value(ns) {
+				hasUUID = true
+				continue
+			}
+			bad = append(bad, eng.Expr(v))
+		}
+		site := "namespace storage prefix = barrier.NamespacePrefix / ns.UUID"
+		switch {
+		case len(bad) > 0:
+			c.Violation(f, site, ret.Pos(), "the storage prefix of a namespace is built from "+strings.Join(bad, ", ")+": only the namespace's UUID is unique and stable (a path nests under its parents' and can be reused after deletion), so namespaces would share or inherit storage", nil)
+		case !hasUUID || !hasPrefix:
+			c.Violation(f, site, ret.Pos(), fmt.Sprintf("the storage prefix %s lacks the namespace UUID (%v) or the %q area prefix (%v)", eng.ExprDeep(ret.Results[0]), hasUUID, nsPrefix, hasPrefix), nil)
+		default:
+			c.OK(f, site, ret.Pos(), eng.ExprDeep(ret.Results[0]))
+		}
 	}
 }
